@@ -578,7 +578,45 @@ def r17_8(chk):
     chk.floor("R17.8", 2, "ID and Parent patterns")
 
 
+def r17_9(chk):
+    chk.rule("R17.9", "transaction discipline of the annotation dbs: every data-changing statement sent through the raw connection (self.db.execute / executemany of INSERT / UPDATE / DELETE outside `with self.db:` and outside _execute_sql, which commits) is followed by self.db.commit() on every normal path of the same function -- as the sibling bulk inserts do; an insert left uncommitted keeps the connection in a transaction and a later write() (sqlite backup) never returns")
+    from ..cfg import build
+
+    m = chk.repo.module(DB)
+    n = 0
+    for q, fn in m.all_functions():
+        g = None
+        for c in walk_no_nested(fn):
+            if not (isinstance(c, ast.Call) and isinstance(c.func, ast.Attribute) and c.func.attr in ("execute", "executemany") and norm(c.func.value) in ("self.db", "self._db")):
+                continue
+            # statement text: a literal / f-string / a local bound to one
+            arg = c.args[0] if c.args else None
+            texts = []
+            if arg is not None:
+                cand = [arg] + [v for tg, v, _ in __import__("c3static.defuse", fromlist=["assignments"]).assignments(fn) if isinstance(arg, ast.Name) and any(isinstance(t, ast.Name) and t.id == arg.id for t in tg)]
+                for e in cand:
+                    for x in ast.walk(e):
+                        if isinstance(x, ast.Constant) and isinstance(x.value, str):
+                            texts.append(x.value.upper())
+            if not any(k in t for t in texts for k in ("INSERT", "UPDATE", "DELETE", "REPLACE")):
+                continue
+            # inside `with self.db:` the context manager commits
+            in_with = any(isinstance(w, ast.With) and any(norm(it.context_expr) in ("self.db", "self._db") for it in w.items) and any(c is x for x in ast.walk(w)) for w in ast.walk(fn))
+            n += 1
+            k = key(m, q, f"`{norm(c)[:50]}` committed")
+            if in_with:
+                chk.ok("R17.9", k, m.loc(c), "inside `with self.db:`")
+                continue
+            g = g or build(fn)
+            holders = g.nodes_containing(lambda x: x is c)
+            commits = g.nodes_containing(lambda x: isinstance(x, ast.Call) and isinstance(x.func, ast.Attribute) and x.func.attr == "commit" and norm(x.func.value) in ("self.db", "self._db"))
+            okc = bool(holders) and bool(commits) and all(g.always_followed_by(h, commits, exceptional=False)[0] for h in holders)
+            chk.decide(okc, "R17.9", k, m.loc(c), "followed by self.db.commit() on every normal path", f"`{norm(c)[:70]}` changes the db through the raw connection and the function can return without self.db.commit(): the connection stays in a transaction (db.in_transaction is True) and a following write() -- sqlite backup inside `with self.db` -- spins for ever; the sibling bulk inserts commit")
+    chk.floor("R17.9", 3, "raw bulk inserts of the annotation dbs")
+
+
 def run(chk):
+    r17_9(chk)
     r17_8(chk)
     r17_7(chk)
     r17_6(chk)
